@@ -1116,6 +1116,21 @@ type example struct {
 }
 
 func genSimple(t *rapid.T) SimpleIn {
+	if rapid.IntRange(0, 9).Draw(t, "wrapperlike") == 5 {
+		// an ordinary object that LOOKS like the wrapper the encoding uses for
+		// dynamically-typed values: exactly the attributes "type" and "value",
+		// the former holding something a type description could be
+		desc := rapid.SampledFrom([]spec.V{spec.KnownStr("number"), spec.KnownStr("string"), spec.KnownStr("bool"), spec.KnownStr("dynamic"),
+			{T: spec.Tuple(spec.String, spec.String), St: spec.Known, Elems: []spec.V{spec.KnownStr("list"), spec.KnownStr("string")}},
+			spec.KnownStr("nonsense"), spec.NullOf(spec.String)}).Draw(t, "desc")
+		val := rapid.SampledFrom([]spec.V{spec.KnownNum(spec.NInt(12)), spec.KnownStr("x"), spec.KnownBool(true), spec.NullOf(spec.String),
+			{T: spec.Tuple(spec.String), St: spec.Known, Elems: []spec.V{spec.KnownStr("a")}}, {T: spec.Tuple(), St: spec.Known}}).Draw(t, "val")
+		v := spec.V{T: spec.T{K: spec.KObject}, St: spec.Known, Keys: []string{"type", "value"}, Elems: []spec.V{desc, val}}.Retype()
+		if rapid.Bool().Draw(t, "nested") {
+			v = spec.V{T: spec.T{K: spec.KTuple}, St: spec.Known, Elems: []spec.V{v}}.Retype()
+		}
+		return SimpleIn{V: &v}
+	}
 	if rapid.Bool().Draw(t, "fromvalue") {
 		v := codecgen.Draw(t, codecgen.Opts{Depth: 3}).V
 		return SimpleIn{V: &v}
